@@ -198,7 +198,7 @@ func checkFixed(q *x, fc fixedCodec, v abiref.Value) {
 	// truncations
 	for _, n := range q.shorter(S) {
 		var e2 error
-		if q.try(func() { _, e2 = fc.dec(want[:n]) }) {
+		if q.try(func() { _, e2 = fc.dec(want[:n:n]) }) {
 			c.Count("refused-by-panic/"+fc.entryDec, 1)
 			c.Cell("%s|truncated encoding|refused by panic", name)
 			seen("truncation-refused")
@@ -443,7 +443,7 @@ func caseTDXMetadata(q *x) {
 	for _, k := range q.shorter(S) {
 		var g *abi.TDXMetadata
 		var e error
-		if q.try(func() { g, e = abi.TDXMetadataFromBytes(want[:k]) }) {
+		if q.try(func() { g, e = abi.TDXMetadataFromBytes(want[:k:k]) }) {
 			c.Count("refused-by-panic/"+entryDec, 1)
 			seen("truncation-refused")
 			continue
